@@ -48,13 +48,13 @@ package extendeddaemonsetreplicaset
 //@   logs
 //@   requires r != nil && r.client != nil && ds != nil
 //@   modifies nothing
-//@   ensures [C12] pod-list-is-restricted-to-the-namespace: forall k int :: lognew(k) ==> logverb(k) == "List" && lognamespaced(k) && logns(k) == ds.ObjectMeta.Namespace
+//@   ensures [C11,C12] pod-list-is-restricted-to-the-namespace: forall k int :: lognew(k) ==> logverb(k) == "List" && lognamespaced(k) && logns(k) == ds.ObjectMeta.Namespace
 //@
 //@ func (*Reconciler).getOldDaemonsetPodList
 //@   logs
 //@   requires r != nil && r.client != nil && ds != nil
 //@   modifies nothing
-//@   ensures [C12] migrated-pod-list-is-restricted-to-the-namespace: forall k int :: lognew(k) && logverb(k) == "List" ==> lognamespaced(k) && logns(k) == ds.ObjectMeta.Namespace
+//@   ensures [C11,C12] migrated-pod-list-is-restricted-to-the-namespace: forall k int :: lognew(k) && logverb(k) == "List" ==> lognamespaced(k) && logns(k) == ds.ObjectMeta.Namespace
 //@   ensures [C12] only-reads: forall k int :: lognew(k) ==> logverb(k) == "List" || logverb(k) == "Get"
 //@   loop 1 invariant true
 //@   loop 2 invariant true
